@@ -170,6 +170,31 @@ def fit_optimizer(g, y, s, constraint, objective, flip, grid_size, rng=None, hos
     return to, Xin, sf
 
 
+def fit_optimizer_sklearn(g, y, X, constraint, objective, flip, grid_size, rng):
+    """ThresholdOptimizer around a real scikit-learn estimator (prefit=False); returns (optimizer, scores it thresholds)."""
+    from fairlearn.postprocessing import ThresholdOptimizer
+    from sklearn.linear_model import LogisticRegression, Ridge
+    from sklearn.svm import LinearSVC
+    from sklearn.tree import DecisionTreeClassifier
+
+    kind = gen.pick(rng, ["logreg_auto", "logreg_proba", "logreg_decision", "svc_auto", "svc_decision", "ridge_auto", "ridge_predict", "tree_proba", "tree_predict"])
+    est = {"logreg": LogisticRegression(C=10.0), "svc": LinearSVC(C=1.0), "ridge": Ridge(alpha=1.0), "tree": DecisionTreeClassifier(max_depth=2, random_state=0)}[kind.split("_")[0]]
+    method = {"auto": "auto", "proba": "predict_proba", "decision": "decision_function", "predict": "predict"}[kind.split("_")[1]]
+    to = ThresholdOptimizer(estimator=est, constraints=constraint, objective=objective, grid_size=grid_size, flip=flip, prefit=False, predict_method=method)
+    to.fit(X, y, sensitive_features=g)
+    e = to.estimator_
+    base = kind.split("_")[0]
+    if method == "auto":
+        scores = e.predict_proba(X)[:, 1] if base in ("logreg", "tree") else (e.decision_function(X) if base == "svc" else e.predict(X))
+    elif method == "predict_proba":
+        scores = e.predict_proba(X)[:, 1]
+    elif method == "decision_function":
+        scores = e.decision_function(X)
+    else:
+        scores = e.predict(X)
+    return to, np.asarray(scores, dtype=float), kind
+
+
 def groups_dict(g, y, s):
     out = {}
     for gi, yi, si in zip(g, y, s):
